@@ -5,7 +5,7 @@
    correspondence check [q_mismatch] and the observation helpers shared by the
    four property monitors (Model/Monitor_C0x.v).  Definitions only. *)
 From WK Require Import Base.Base.
-From WK Require Import Gen.Consts_QuorumLog Model.ReplicaLog Model.QuorumLog.
+From WK Require Export Gen.Consts_QuorumLog Model.ReplicaLog Model.QuorumLog.
 Open Scope N_scope.
 
 (* ---- operations of a schedule ------------------------------------------------------------- *)
@@ -147,8 +147,19 @@ Record ent := Ent {
 
 (* one replica as read back through ReplicaStore.Load: ids.[k] = id of the entry at index k+1 *)
 Record robs := RO { ro_err : bool; ro_leo : N; ro_hw : N; ro_ids : list N }.
-Record qobs := Obs { ob_res : qres; ob_reps : list robs }.
+(* ob_reps lists only the replicas whose observation changed in this step *)
+Record qobs := Obs { ob_res : qres; ob_reps : list (N * robs) }.
 Record qcase := QCase { cs_cfg : qconfig; cs_tab : list ent; cs_steps : list (qop * qobs) }.
+
+Definition robs_init : robs := RO false 0 0 [].
+Fixpoint get_robs (l : list (N * robs)) (v : N) : robs :=
+  match l with
+  | [] => robs_init
+  | (v', o) :: rest => if v =? v' then o else get_robs rest v
+  end.
+(* the full observation after a step: the previous one overridden by the changes *)
+Definition apply_delta (prev delta : list (N * robs)) : list (N * robs) :=
+  delta ++ filter (fun p => negb (existsb (fun d => fst d =? fst p) delta)) prev.
 
 Definition tab_get (tab : list ent) (id : N) : option ent :=
   if id =? 0 then None else nth_error tab (N.to_nat (id - 1)).
@@ -188,26 +199,26 @@ Definition replica_matches (k : store_kind) (tab : list ent) (o : robs) (rp : re
               log_matches tab (ro_ids o) (rp_log rp)
   end.
 
-Fixpoint replicas_match (k : store_kind) (tab : list ent) (n : net) (vs : list N) (os : list robs) : bool :=
-  match vs, os with
-  | [], [] => true
-  | v :: vs', o :: os' => replica_matches k tab o (net_rep n v) && replicas_match k tab n vs' os'
-  | _, _ => false
-  end.
+(* replicas named in the delta must match the model; replicas not named must not have
+   changed in the model either (their model replica still matches the old observation) *)
+Definition replicas_match (k : store_kind) (tab : list ent) (n : net) (vs : list N) (full : list (N * robs)) : bool :=
+  forallb (fun v => replica_matches k tab (get_robs full v) (net_rep n v)) vs.
 
-Fixpoint run_mismatch (cfg : qconfig) (tab : list ent) (c : cluster) (steps : list (qop * qobs)) : bool :=
+Fixpoint run_mismatch (cfg : qconfig) (tab : list ent) (c : cluster) (prev : list (N * robs))
+         (steps : list (qop * qobs)) : bool :=
   match steps with
   | [] => false
   | (op, o) :: rest =>
       let '(c', r) := q_step cfg c op in
-      if qres_eqb r (ob_res o) && replicas_match (cf_kind cfg) tab (cl_net c') (voters_of cfg) (ob_reps o)
-      then run_mismatch cfg tab c' rest
+      let full := apply_delta prev (ob_reps o) in
+      if qres_eqb r (ob_res o) && replicas_match (cf_kind cfg) tab (cl_net c') (voters_of cfg) full
+      then run_mismatch cfg tab c' full rest
       else true
   end.
 
 (* correspondence: true iff the model disagrees with the implementation on this case *)
 Definition q_mismatch (c : qcase) : bool :=
-  run_mismatch (cs_cfg c) (cs_tab c) (cluster_init (cs_cfg c)) (cs_steps c).
+  run_mismatch (cs_cfg c) (cs_tab c) (cluster_init (cs_cfg c)) [] (cs_steps c).
 
 (* the model's own trace, for debugging and for the refutation witnesses *)
 Fixpoint run_model (cfg : qconfig) (c : cluster) (ops : list qop) : list qres * cluster :=
@@ -218,18 +229,28 @@ Fixpoint run_model (cfg : qconfig) (c : cluster) (ops : list qop) : list qres * 
   end.
 
 (* index (from 0) of the first disagreeing step, for debugging *)
-Fixpoint first_mismatch (cfg : qconfig) (tab : list ent) (c : cluster) (steps : list (qop * qobs)) (k : N)
-  : option (N * qres) :=
+Fixpoint first_mismatch (cfg : qconfig) (tab : list ent) (c : cluster) (prev : list (N * robs))
+         (steps : list (qop * qobs)) (k : N) : option (N * qres) :=
   match steps with
   | [] => None
   | (op, o) :: rest =>
       let '(c', r) := q_step cfg c op in
-      if qres_eqb r (ob_res o) && replicas_match (cf_kind cfg) tab (cl_net c') (voters_of cfg) (ob_reps o)
-      then first_mismatch cfg tab c' rest (k + 1)
+      let full := apply_delta prev (ob_reps o) in
+      if qres_eqb r (ob_res o) && replicas_match (cf_kind cfg) tab (cl_net c') (voters_of cfg) full
+      then first_mismatch cfg tab c' full rest (k + 1)
       else Some (k, r)
   end.
 Definition q_first_mismatch (c : qcase) :=
-  first_mismatch (cs_cfg c) (cs_tab c) (cluster_init (cs_cfg c)) (cs_steps c) 0.
+  first_mismatch (cs_cfg c) (cs_tab c) (cluster_init (cs_cfg c)) [] (cs_steps c) 0.
+
+(* the full per-step observations of a case: (operation, result, all replicas) *)
+Fixpoint expand_steps (prev : list (N * robs)) (steps : list (qop * qobs))
+  : list (qop * qres * list (N * robs)) :=
+  match steps with
+  | [] => []
+  | (op, o) :: rest => let full := apply_delta prev (ob_reps o) in
+                       (op, ob_res o, full) :: expand_steps full rest
+  end.
 
 (* ---- observation helpers shared by the monitors ------------------------------------------------ *)
 
